@@ -77,28 +77,42 @@ func vC16Setup(k *vKit) {
 	vC16K = ks
 }
 
-func vC16ErrCode(err error, text string) int {
+// Error class of a failed parse, decided STRUCTURALLY (never by the error's text): the
+// implementation contributes only the fact that it returned an error; which stage that is
+// follows from the input itself -- number of parts, base64url of each part (replaying the
+// implementation's own decoder), the protected header under encoding/json.  parts = 3 (JWS) / 5 (JWE).
+func vC16ErrCode(err error, text string, parts int) int {
 	if err == nil {
 		return 0
 	}
-	if _, ok := err.(base64.CorruptInputError); ok {
-		// the same error type also comes out of encoding/json when a base64url member INSIDE the
-		// protected header (jwk x/y/n/e, apu, ...) is malformed: that is a header (JSON) error
-		for _, p := range strings.Split(stripWhitespace(text), ".") {
-			if _, e := base64URLDecode(p); e != nil {
-				return 2
-			}
-		}
-		return 3
-	}
-	msg := err.Error()
-	switch {
-	case strings.Contains(msg, "must have three parts"), strings.Contains(msg, "must have five parts"):
-		return 1
-	case strings.Contains(msg, "missing alg/enc"):
-		return 4
-	case err == ErrUnprotectedNonce:
+	if err == ErrUnprotectedNonce {
 		return 6
+	}
+	s := stripWhitespace(text)
+	if strings.HasPrefix(s, "{") {
+		return 2 // JSON serialization: the only modelled failure is a member that does not decode
+	}
+	ps := strings.Split(s, ".")
+	if len(ps) != parts {
+		return 1
+	}
+	for _, p := range ps {
+		if _, e := base64URLDecode(p); e != nil {
+			return 2
+		}
+	}
+	if parts == 5 {
+		raw, _ := base64URLDecode(ps[0])
+		if len(raw) == 0 {
+			return 4
+		}
+		var h rawHeader
+		if json.Unmarshal(raw, &h) != nil {
+			return 3
+		}
+		if h.Alg == "" || h.Enc == "" {
+			return 4
+		}
 	}
 	return 3
 }
@@ -126,7 +140,7 @@ func vC16ObsJWS(text string) vSx {
 	return vGuard(func() vSx {
 		o, err := ParseSigned(text)
 		if err != nil {
-			return vErr(vC16ErrCode(err, text))
+			return vErr(vC16ErrCode(err, text, 3))
 		}
 		if len(o.Signatures) != 1 {
 			return vL(vZ(-2))
@@ -144,7 +158,7 @@ func vC16ObsJWE(text string) vSx {
 	return vGuard(func() vSx {
 		o, err := ParseEncrypted(text)
 		if err != nil {
-			return vErr(vC16ErrCode(err, text))
+			return vErr(vC16ErrCode(err, text, 5))
 		}
 		if len(o.recipients) != 1 {
 			return vL(vZ(-2))
@@ -256,7 +270,9 @@ func vC16RunStruct(k *vKit, c vSx) {
 		obs := vGuard(func() vSx {
 			v := ecEncrypterVerifier{publicKey: &vC16K.ec[crv].PublicKey}
 			err := v.verifyPayload([]byte("x"), sig, alg)
-			if err != nil && strings.Contains(err.Error(), "invalid signature size") {
+			// the stage is known from the case: a signature that is not 2*keySize bytes long can only
+			// have been refused for its length (the text of the error is not looked at)
+			if err != nil && len(sig) != 2*ks {
 				return vErr(1)
 			}
 			return vOk()
@@ -342,7 +358,7 @@ func vC16RunStruct(k *vKit, c vSx) {
 		if kind == 21 {
 			obs := vGuard(func() vSx {
 				s, err := NewSigner(SignatureAlgorithm(name), sk)
-				if err == ErrUnsupportedAlgorithm || (err != nil && strings.Contains(err.Error(), "failed to compute hmac")) {
+				if err == ErrUnsupportedAlgorithm {
 					return vErr(1)
 				} else if err != nil {
 					return vErr(3)
@@ -351,7 +367,9 @@ func vC16RunStruct(k *vKit, c vSx) {
 				if err == ErrUnsupportedAlgorithm {
 					return vErr(1)
 				} else if err != nil {
-					if strings.Contains(err.Error(), "bit key") {
+					// known from the case: an ES algorithm on an EC key of another curve can only have
+					// been refused for the curve
+					if kk > 1 && known && wk > 1 && wk != kk {
 						return vErr(2)
 					}
 					return vErr(3)
@@ -377,11 +395,13 @@ func vC16RunStruct(k *vKit, c vSx) {
 				return vErr(3)
 			}
 			err = v.verifyPayload([]byte("glue"), make([]byte, sl), SignatureAlgorithm(name))
-			// symmetricMac wraps its ErrUnsupportedAlgorithm into "failed to compute hmac"
-			if err == ErrUnsupportedAlgorithm || (err != nil && strings.Contains(err.Error(), "failed to compute hmac")) {
+			// error identity where the code has one; otherwise the stage is known from the case
+			// (symmetricMac wraps its ErrUnsupportedAlgorithm into another error: with a byte key and a
+			// name that is not an HS algorithm the refusal can only be for the algorithm)
+			if err == ErrUnsupportedAlgorithm || (err != nil && kk == 0 && !(known && wk == 0)) {
 				return vErr(1)
 			}
-			if err != nil && strings.Contains(err.Error(), "invalid signature size") {
+			if err != nil && kk > 1 && known && wk > 1 && sl != 2*map[int]int{256: 32, 384: 48, 521: 66}[wk] {
 				return vErr(2)
 			}
 			return vOk()
